@@ -15,7 +15,7 @@
 #ifdef VERIF_NATIVE
 # define VND(kind, name) vn_get(#name, 0)
 #else
-# define VND(kind, name) nondet_##kind()
+# define VND(kind, name) ({ __typeof__(nondet_##kind()) vnd_##name = nondet_##kind(); vnd_##name; })
 #endif
 
 /* Vacuity canary: must be reachable, i.e. must FAIL.  The driver rejects a
